@@ -178,7 +178,7 @@ def u_proceed(c):
     c.inputs["n"] = SInt(n)
     c.assume(n >= 0)
     PLOG, NS = _proceed_folds()
-    it.loopspecs = {(PROCEED, 0): LoopSpec(closed=lambda it_, env, i: {"next_selectors": ListTerm(NS.at(i))},
+    it.loopspecs = {(PROCEED, 0): LoopSpec(closed=lambda it_, env, i: {"@carried": ListTerm(NS.at(i))},
                                           ghost=lambda it_, env, i: PLOG.at(i),
                                           axioms=lambda it_, env, i: PLOG.axioms(i) + NS.axioms(i))}
     pairs = SymSeq("handler_pairs", n, lambda i: _mk_pair_sym(it, i))
